@@ -13,6 +13,7 @@ import (
 	"go.sia.tech/core/types"
 	"go.sia.tech/coreutils/chain"
 	"verifharness/c01"
+	"verifharness/c02"
 	"verifharness/chainx"
 	"verifharness/vh"
 )
@@ -99,9 +100,14 @@ func poll(c *vh.Case, t *chainx.Tree, nd *chainx.Node, s *sub) (progress bool) {
 }
 
 // atTip compares the subscriber's shadow ledger with the linear twin's.
-func atTip(c *vh.Case, t *chainx.Tree, nd *chainx.Node, s *sub, twinDigest string) {
+func atTip(c *vh.Case, t *chainx.Tree, nd *chainx.Node, s *sub, twinDigest, twinLoose string, tainted bool) {
 	if d := s.led.Digest(true); d != twinDigest {
-		c.Oracle("shadow-ledger-differs-from-linear-twin", "subscriber %s (chunk %d) at tip %s: ledger folded from the update stream differs from the ledger of a node that saw only the best chain:\n%s", s.name, s.chunk, idxStr(t, s.idx), firstDiff(d, twinDigest))
+		cls := "shadow-ledger-differs-from-linear-twin"
+		// the known class explains different leaf indices / proofs only, never different elements
+		if tainted && s.led.DigestNoLeaf() == twinLoose {
+			cls = "exp-order-after-mid-list-revert"
+		}
+		c.Oracle(cls, "subscriber %s (chunk %d) at tip %s: ledger folded from the update stream differs from the ledger of a node that saw only the best chain:\n%s", s.name, s.chunk, idxStr(t, s.idx), firstDiff(d, twinDigest))
 	}
 	if err := s.led.VerifyProofs(nd.CM.TipState()); err != nil {
 		c.Oracle("shadow-ledger-proof-invalid", "subscriber %s at tip %s: %v", s.name, idxStr(t, s.idx), err)
@@ -118,8 +124,26 @@ func firstDiff(a, b string) string {
 	return fmt.Sprintf("lengths %d vs %d", len(la), len(lb))
 }
 
+// revertedBetween lists the blocks a move of the tip from a to b reverts.
+func revertedBetween(t *chainx.Tree, a, b int) []int {
+	anc := map[int]bool{0: true}
+	for x := b; x != 0 && x != chainx.OrphanParent; x = t.Blocks[x].Parent {
+		anc[x] = true
+	}
+	var out []int
+	for x := a; !anc[x]; x = t.Blocks[x].Parent {
+		out = append(out, x)
+	}
+	return out
+}
+
 func RunTree(r *vh.Run, rng *vh.RNG, name string, t *chainx.Tree, sched [][]int) {
 	nd := t.Net.MustNode()
+	// C02's known class: once a block that removed a contract from the middle of an expiration
+	// list has been reverted, the order of later expiry payouts (hence leaf indices) may differ
+	// from a linear node's
+	decls := c02.Declare(t, c02.NewIDs())
+	tainted := false
 	c := &vh.Case{Name: name, Model: "chain mgr"}
 	for _, b := range t.Blocks[1:] {
 		c.Op(b.DeclLine(), "ok")
@@ -140,7 +164,7 @@ func RunTree(r *vh.Run, rng *vh.RNG, name string, t *chainx.Tree, sched [][]int)
 			}
 		}
 	}
-	var twinDigest string
+	var twinDigest, twinLoose string
 	var twinTip types.ChainIndex
 	check := func(s *sub) {
 		if s.dead || s.idx != nd.CM.Tip() {
@@ -151,10 +175,11 @@ func RunTree(r *vh.Run, rng *vh.RNG, name string, t *chainx.Tree, sched [][]int)
 			return
 		}
 		if twinTip != nd.CM.Tip() {
-			twinDigest = chainx.LedgerOf(t.Twin(tid)).Digest(true)
+			tl := chainx.LedgerOf(t.Twin(tid))
+			twinDigest, twinLoose = tl.Digest(true), tl.DigestNoLeaf()
 			twinTip = nd.CM.Tip()
 		}
-		atTip(c, t, nd, s, twinDigest)
+		atTip(c, t, nd, s, twinDigest, twinLoose, tainted)
 	}
 	for bi, batch := range sched {
 		beforeTip, beforeN := nd.CM.Tip(), len(nd.Reorgs)
@@ -176,6 +201,19 @@ func RunTree(r *vh.Run, rng *vh.RNG, name string, t *chainx.Tree, sched [][]int)
 		if res == "panic" {
 			c.Oracle("submission-panic", "submission of %v panicked: %s", batch, c01.LastPanic)
 			break
+		}
+		if bt, ok := t.Lookup(beforeTip.ID); ok {
+			at, ok := t.Lookup(nd.CM.Tip().ID)
+			if res == "reorg-failed" {
+				at = batch[len(batch)-1] // rolled back: the old branch was reverted and re-applied
+			}
+			if ok && at != bt && t.Blocks[at].Parent != chainx.OrphanParent {
+				for _, x := range revertedBetween(t, bt, at) {
+					if d := decls[x]; d != nil && d.Unstable {
+						tainted = true
+					}
+				}
+			}
 		}
 		// reorg notifications are delivered whenever, and only when, the tip has changed
 		switch moved, got := nd.CM.Tip() != beforeTip, len(nd.Reorgs)-beforeN; {
@@ -210,6 +248,9 @@ func RunTree(r *vh.Run, rng *vh.RNG, name string, t *chainx.Tree, sched [][]int)
 	late := &sub{name: "late", chunk: chunks[rng.Intn(len(chunks))], led: chainx.NewLedger()}
 	catchUp(late, 10000)
 	check(late)
+	if tainted {
+		c.Tags = append(c.Tags, "history-class:exp-unstable-revert")
+	}
 	c.Nontrivial = revertsSeen > 0
 	if revertsSeen > 0 {
 		c.Tags = append(c.Tags, "subscriber-reverted")
@@ -226,7 +267,7 @@ func Run(r *vh.Run) {
 		trng := rng.Fork()
 		net := chainx.RandomNet(trng)
 		t := chainx.GenTree(trng, net, chainx.GenCfg{Main: 4 + trng.Intn(10), Forks: 1 + trng.Intn(3), MaxBranch: 3 + trng.Intn(8),
-			Kinds: chainx.BasicKinds, TxPerBlk: 2, Corrupt: trng.Intn(2), Extend: 2})
+			Kinds: chainx.AllKinds(), TxPerBlk: 2, Corrupt: trng.Intn(2), Extend: 2})
 		for s := 0; s < 2; s++ {
 			RunTree(r, trng, fmt.Sprintf("tree%d/s%d", i, s), t, t.Schedule(trng))
 		}
